@@ -250,8 +250,8 @@ HARNESSES = [
                    [_M + 'quant/nn/conv2d.py::QuantConv2d.forward', _M + 'quant/nn/linear.py::QuantLinear.forward', _M + 'quant/nn/identity.py::QuantIdentity.forward',
                     _M + 'nn/qtz.py::MPSPerLayerQtz.forward', _M + 'nn/qtz.py::MPSBaseQtz.effective_scale', _M + 'nn/qtz.py::MPSBiasQtz.forward'],
          quick=[dict(kind='identity', n_in=3, n_w=1, bias=False), dict(kind='identity', n_in=2, n_w=1, bias=False, gumbel=True)] +
-               [dict(kind=k, n_in=2, n_w=2, bias=b) for k in ('conv2d', 'linear') for b in _B] +
-               [dict(kind='conv1d', n_in=2, n_w=2, bias=True), dict(kind='linear', n_in=2, n_w=1, bias=False, gumbel=True)],
+               [dict(kind='conv2d', n_in=2, n_w=2, bias=False), dict(kind='linear', n_in=2, n_w=2, bias=True), dict(kind='conv1d', n_in=1, n_w=2, bias=False),
+                dict(kind='linear', n_in=2, n_w=1, bias=False, gumbel=True)],
          thorough=[dict(kind='identity', n_in=n, n_w=1, bias=False, gumbel=g) for n in (1, 2, 3) for g in _B] +
                   [dict(kind=k, n_in=ni, n_w=nw, bias=b, gumbel=g) for k in ('conv2d', 'conv1d', 'linear') for ni in (1, 2, 3) for nw in (1, 2, 3) for b in _B for g in _B],
          timeout=90),
